@@ -292,6 +292,48 @@ def reads_guarded(ctx, rule='C14-T1'):
     ctx.floor(rule, 'guarded dereferences of stage products', n, 40)
 
 
+FRAME_KEEPING = {'sort_values', 'copy', 'dropna', 'reset_index', 'sort_index', 'fillna', 'astype', 'head', 'tail',
+                 'drop_duplicates', 'infer_objects', 'convert_dtypes', 'select_dtypes', 'filter'}
+FRAME_READERS = {'max', 'min', 'sum', 'mean', 'median', 'std', 'var', 'nunique', 'any', 'all', 'count', 'describe', 'iterrows',
+                 'itertuples', 'apply', 'agg', 'aggregate', 'idxmax', 'idxmin', 'equals', 'to_numpy', 'to_dict', 'to_records',
+                 'items', 'transform', 'applymap', 'map', 'stack', 'melt', 'cummax', 'cumsum', 'prod', 'mode', 'quantile'}
+
+
+def _is_whole_frame(t, data, col) -> bool:
+    """t denotes the hit table with all its columns, or with a set of columns that is computed (and may hold col)."""
+    if t == data:
+        return True
+    tg = tag(t)
+    if tg in ('mask', 'rows'):
+        return _is_whole_frame(t[1], data, col)
+    if tg == 'mcall' and t[2] in FRAME_KEEPING:
+        return _is_whole_frame(t[1], data, col)
+    if tg == 'sub' and _is_whole_frame(t[1], data, col):
+        sel = T.peel(t[2])
+        if T.is_const(sel) and isinstance(sel[1], str):
+            return False
+        if tag(sel) in ('list', 'tuple') and all(T.is_const(x) for x in sel[1]):
+            return C(col) in sel[1]
+        return True         # a computed selection of columns (or of rows)
+    if tg == 'cols' and _is_whole_frame(t[1], data, col):
+        sel = T.peel(t[2])
+        if tag(sel) in ('list', 'tuple') and all(T.is_const(x) for x in sel[1]):
+            return C(col) in sel[1]
+        return True
+    return False
+
+
+def _reads_whole_frame(v, data, col) -> bool:
+    for x in T.walk(v):
+        if tag(x) == 'mcall' and x[2] in FRAME_READERS and _is_whole_frame(x[1], data, col):
+            return True
+        if tag(x) == 'attr' and x[2] in ('values', 'T') and _is_whole_frame(x[1], data, col):
+            return True
+        if tag(x) == 'vals' and _is_whole_frame(x[1], data, col):
+            return True
+    return False
+
+
 def no_self_dependence(ctx, rule='C14-T4'):
     """A stage resets its own id column (for all rows) before anything reads or partially writes it."""
     for m, binding, own, label in stage_methods(ctx, rule):
@@ -319,6 +361,24 @@ def no_self_dependence(ctx, rule='C14-T4'):
         is_reset = first.kind == 'store' and first.target == ('col', data, col) and T.is_const(first.value) \
             and not first.loops and first.guard != T.FALSE and \
             not T.contains(first.guard, lambda x: x == C(col) or x == ('attr', SELF, '_' + col[:-3] + 's'))
+        # ... nor does anything read the hit table as a whole (every column, or a computed set of columns) before
+        # that reset: such a read takes in the ids the previous run of this very stage left behind
+        whole = []
+        for e in s.events:
+            if e.seq >= first.seq:
+                break
+            if e.guard == T.FALSE or e.kind in ('propget',):
+                continue
+            for nm in ('target', 'value', 'call', 'guard'):
+                v = getattr(e, nm)
+                if v is not None and _reads_whole_frame(v, data, col):
+                    whole.append(e)
+                    break
+        ctx.check(not whole, rule, whole[0].func.qname if whole else m.qname, whole[0].node if whole else m.node.name,
+                  whole[0].loc() if whole else m.loc(),
+                  f'{label} reads the hit table as a whole (all columns / a computed set of columns) before resetting '
+                  f'{col!r}: on a repeated call the ids left by the previous run of this stage flow into the new ones',
+                  instance=f'{label}: no whole-table read before {col} is reset')
         ctx.check(is_reset, rule, first.func.qname, first.node, first.loc(),
                   f'{label}: the first access to {col!r} is not a reset of the whole column to a constant: '
                   'the stage depends on its own earlier output (not idempotent, stale ids survive)',
